@@ -7,7 +7,7 @@ LEVEL = "exploration"
 RULE = ("network R-p1-J1-p2-J2-p3-T (+ parallel p4 so that closing p2 isolates nothing) with a demand pattern, 8 h, hourly steps, "
         "carrying each ONE of the features {none, time control, off-grid time control, clock-time control with start_clocktime, "
         "tank-level control pair, pressure control, rule on time, rule on level with ELSE, rule on a junction pressure with ELSE, rule true only in an early window, "
-        "rule with a <= time bound, leak window spanning the pause, PDD, TCV with a setting control, 30-min hydraulic step, a dead end that is isolated / reconnected / isolated again}; "
+        "rule with a <= time bound, leak window spanning the pause, PDD, TCV with a setting control, 30-min hydraulic step, a dead end that is isolated / reconnected / isolated again, a dead end cut off by the simulator's own status logic (emptied tank; wrong-way check valve) and reconnected by a bypass}; "
         "histories: EVERY subset of <= 1 (quick) / <= 2 (thorough; <= 3 on three features) pause instants of the hourly grid x "
         "pickle round trip {no, after every pause} x {new simulator object per part}; thorough adds all pairs of features with "
         "single pauses.  oracle: index of every continued part starts at the first hydraulic step after the pause, indices strictly "
@@ -75,13 +75,28 @@ def feature(s, f):
         s["nodes"].append(J("J3", 2.0, [[0.005, None, None]]))
         s["links"].append(P("p5", "J2", "J3", status="CLOSED"))
         c += [{"kind": "time", "t": 3 * H, "link": "p5", "value": "OPEN"}, {"kind": "time", "t": 6 * H, "link": "p5", "value": "CLOSED"}]
+    elif f == "tank_empties":
+        # a dead end fed only by a small tank: the tank reaches its minimum level at about 1.6 h, the simulator closes its
+        # outlet internally (no user control involved) and the dead end is isolated until a bypass is opened at 5 h
+        s["nodes"].append(T("T2", elev=20.0, init=0.8, mn=0.5, mx=3.0, diam=10.0))
+        s["nodes"].append(J("J3", 2.0, [[0.004, None, None]]))
+        s["links"].append(P("p5", "T2", "J3"))
+        s["links"].append(P("p6", "J2", "J3", status="CLOSED"))
+        c += [{"kind": "time", "t": 5 * H, "link": "p6", "value": "OPEN"}]
+    elif f == "cv_deadend":
+        # a dead end behind a check valve that points the wrong way: closed by the simulator's own status logic from the
+        # first solve on, opened for good when the demand turns into an inflow... never: it stays cut off, until a bypass opens at 4 h
+        s["nodes"].append(J("J3", 2.0, [[0.004, None, None]]))
+        s["links"].append(P("p5", "J3", "J2", cv=True))
+        s["links"].append(P("p6", "J1", "J3", status="CLOSED"))
+        c += [{"kind": "time", "t": 4 * H, "link": "p6", "value": "OPEN"}, {"kind": "time", "t": 6 * H, "link": "p6", "value": "CLOSED"}]
     else:
         raise KeyError(f)
     return s
 
 
 FEATURES = ["none", "time", "time_offgrid", "clock", "level_pair", "pressure", "rule_time", "rule_level_else", "rule_early", "rule_le",
-            "leak", "pdd", "tcv_setting", "hyd30", "reconnect", "rule_pressure"]
+            "leak", "pdd", "tcv_setting", "hyd30", "reconnect", "rule_pressure", "tank_empties", "cv_deadend"]
 
 
 def cases(tier):
